@@ -4,7 +4,7 @@ from checks.tsutil import *
 ID = 'C09'
 EPOCH_MS = 1672534861000   # DATACAKE_EPOCH, in ms since 1970
 RULE = ('each case = one clock (init value) and 1-60 send/recv calls with injected wall readings '
-        '(monotone, stalled, backwards, jumps, non-multiples of 4 ms) and remote stamps chosen relative to the '
+        '(monotone, stalled, backwards, jumps, non-multiples of 4 ms; also injected as readings of the SYSTEM clock - send-unix - before, at and in the first seconds after the datacake epoch at 1 ms resolution) and remote stamps chosen relative to the '
         'clock/wall (behind, same time with smaller/equal/larger counter, ahead within/at/beyond the drift, own node id, '
         'counter 65534/65535, fractional 250-255); non-trivial = at least one successful send AND at least one of '
         '{accepted recv, refused call, stalled-or-backwards wall}; distinct by hash of the op lines')
@@ -12,7 +12,7 @@ ASSUMPTIONS = ['wall clock readings are injected through the verif hook (get_dat
                'theorems assume WallOk = the wall reading is a multiple of 4 ms (the resolution of the packed stamp; get_datacake_timestamp rounds); since fix D16 there is no range condition: readings beyond the representable seconds are refused with Overflow, in the model and in the theorems']
 TRUSTED_BASE = ['correspondence: dcharness (real HLCTimestamp::send/recv) vs dcdriver (Datacake.Ts.send/recv) on generated call sequences',
                 'hook H1 (datacake-crdt feature verif)']
-THEOREM_NOTE = 'Datacake.Ts.send / Datacake.Ts.recv (Model/Timestamp.lean); theorems send_spec, recv_spec, recv_error_iff, history_monotone'
+THEOREM_NOTE = 'Datacake.Ts.send / Datacake.Ts.recv (Model/Timestamp.lean); theorems send_spec, recv_spec, recv_error_iff, history_monotone, wallOfUnix_wallOk, wallOfUnix_before_epoch'
 
 
 def gen_case(rng, n, idx):
